@@ -227,6 +227,9 @@ def run_job(ws, job, extra_defines=(), want_trace=True):
     return r
 
 
+# default SAT back end when a job names none (MiniSat when empty); development override through VERIF_SOLVER
+DEFAULT_SOLVER = os.environ.get('VERIF_SOLVER', '').split()
+
 def _run_job(ws, job, r, extra_defines, want_trace):
     tag = hashlib.md5((job.name + ' '.join(extra_defines)).encode()).hexdigest()[:10]
     base = os.path.join(ws.dir, 'job_' + re.sub(r'\W', '_', job.name)[-60:] + '_' + tag)
@@ -273,7 +276,7 @@ def _run_job(ws, job, r, extra_defines, want_trace):
     if rc != 0 or not os.path.exists(b):
         raise Infra('goto-instrument failed: ' + (se + so)[-1500:])
     checks = [c for c in DEFAULT_CHECKS if c not in job.no_default] + list(job.checks)
-    cmd = ['cbmc', b, '--json-ui', '--unwind', str(job.unwind)] + checks + list(job.solver)
+    cmd = ['cbmc', b, '--json-ui', '--unwind', str(job.unwind)] + checks + (list(job.solver) or DEFAULT_SOLVER)
     if job.object_bits:
         cmd += ['--object-bits', str(job.object_bits)]
     for us in job.unwindset:
